@@ -335,9 +335,26 @@ def s4(ctx, rep):
     rep.put(ok, "S4", "agreement", "MOASHA.__init__: per-metric sign +1 for min, -1 for max, zipped with the metric names", init,
             dc[0] if dc else None, "")
     md = P.method("MOASHA", "_metric_dict")
-    ok = any(isinstance(x, ast.BinOp) and isinstance(x.op, ast.Mult) and "_metric_op[metric]" in U(x) and "[metric]" in U(x.left)
-             for x in walk_shallow(md.node))
-    rep.put(ok, "S4", "agreement", "MOASHA._metric_dict multiplies each metric by its own sign", md, None, "")
+    dcs = [x for x in walk_shallow(md.node) if isinstance(x, ast.DictComp)]
+    ok = len(dcs) == 1 and len(dcs[0].generators) == 1 and not dcs[0].generators[0].ifs
+    why = "signed metrics are not built by one comprehension over self._metrics"
+    if ok:
+        g = dcs[0].generators[0]
+        lv = U(g.target)
+        ok = U(g.iter) == "self._metrics" and U(dcs[0].key) == lv
+        v = dcs[0].value
+        if ok:
+            ok = isinstance(v, ast.BinOp) and isinstance(v.op, ast.Mult) and \
+                {U(v.left), U(v.right)} == {f"{md.params[1]}[{lv}]", f"self._metric_op[{lv}]"}
+        why = (f"the objective vector is built by iterating `{U(g.iter)}` (key `{U(dcs[0].key)}`, value `{U(v)}`): _Bracket.on_result turns "
+               "the recorded dicts into rows positionally, so the columns must follow the fixed order of self._metrics and each "
+               "be multiplied by its own sign; otherwise columns of different trials are compared with each other")
+    rep.put(ok, "S4", "agreement", "MOASHA._metric_dict: columns in the fixed order of self._metrics, each times its own sign", md,
+            dcs[0] if dcs else None, "", why)
+    # the consumer is positional
+    ok = any(isinstance(x, ast.Call) and fn_name(x) == "list" and x.args and isinstance(x.args[0], ast.Call) and fn_name(x.args[0]) == "values"
+             for x in walk_shallow(b.node))
+    rep.info("S4", "agreement", "_Bracket.on_result reads recorded dicts positionally (list(x.values()))", b, None, str(ok))
 
 
 def run(ctx, rep, tier="quick"):
